@@ -632,7 +632,8 @@ def mkLDoc (measure : Measure) (d : Doc) (p : Prep) : Except String (Layout.LDoc
   let sb := d.body.sublineByL
   let hasPB := !pb.isEmpty
   let hasSB := !sb.isEmpty
-  let total := Widths.sumQ p.cum
+  -- the table width: the last cumulative width (repo fix: formerly the sum of the cumulative widths)
+  let total := p.cum.getLast?.getD 0
   let pkeys := d.rows.map fun r => pick d.cols r pb
   let skeys := d.rows.map fun r => pick d.cols r sb
   let pch := Paginate.changes (pkeys.map fun k => k.map strOfCell)
